@@ -64,20 +64,43 @@ class KindTable:
 KT = None  # set by harnesses: models_typst.KT = KindTable(...)
 
 
+_KIND_IN_CACHE = {}
+
+
 def kind_in(kind, s):
     """kind (int or BV8) ∈ set of ints"""
     if not is_sym(kind):
         return kind in s
     if not s:
         return False
-    return b_or(*[kind == z3.BitVecVal(k, 8) for k in sorted(s)])
+    key = (kind.get_id(), frozenset(s))
+    r = _KIND_IN_CACHE.get(key)
+    if r is None:
+        ks = sorted(s)
+        # contiguous runs become range tests
+        terms = []
+        i = 0
+        while i < len(ks):
+            j = i
+            while j + 1 < len(ks) and ks[j + 1] == ks[j] + 1:
+                j += 1
+            if j == i:
+                terms.append(kind == z3.BitVecVal(ks[i], 8))
+            else:
+                terms.append(z3.And(z3.UGE(kind, z3.BitVecVal(ks[i], 8)), z3.ULE(kind, z3.BitVecVal(ks[j], 8))))
+            i = j + 1
+        r = simp(z3.Or(*terms)) if len(terms) > 1 else simp(terms[0])
+        _KIND_IN_CACHE[key] = (r, kind)  # keep kind alive so the id stays unique
+        return r
+    return r[0]
 
 
 class Node:
     """abstract syntax node.  kind: int | BV8.  Leaves carry text (Str); inner nodes carry children."""
     _next = [1]
 
-    def __init__(self, kind, text=None, children=(), err=False, tag=None, nid=None):
+    def __init__(self, kind, text=None, children=(), err=False, tag=None, nid=None, blen=None):
+        self.blen = blen   # symbolic byte length of a leaf whose content is not modelled
         if nid is None:
             nid = Node._next[0]
             Node._next[0] += 1
@@ -101,6 +124,13 @@ class Node:
 
     def erroneous(self):
         return b_or(self.err, *[c.erroneous() for c in self.children])
+
+    def byte_len(self):
+        if self.blen is not None:
+            return self.blen
+        if not self.children:
+            return self.text.byte_len()
+        return i_sum([c.byte_len() for c in self.children])
 
     def __repr__(self):
         k = self.kind if is_sym(self.kind) else (KT.names[self.kind] if KT else self.kind)
@@ -169,7 +199,7 @@ def node_clone(m, a, ci):
 
 @reg('SyntaxNode::len')
 def node_len(m, a, ci):
-    return _node(m, a[0]).into_text().byte_len()
+    return _node(m, a[0]).byte_len()
 
 
 @reg('SyntaxKind.PartialEq::eq', 'SyntaxKind.PartialEq::ne')
@@ -290,14 +320,14 @@ class Linked:
         self.index = index
 
     def range(self):
-        return rng(self.offset, i_add(self.offset, self.node.into_text().byte_len()))
+        return rng(self.offset, i_add(self.offset, self.node.byte_len()))
 
     def kids(self):
         out = []
         off = self.offset
         for i, c in enumerate(self.node.children):
             out.append(Linked(c, off, self, i))
-            off = i_add(off, c.into_text().byte_len())
+            off = i_add(off, c.byte_len())
         return out
 
     def __repr__(self):
@@ -323,7 +353,10 @@ def source_text(m, a, ci):
 
 @reg('Source::len_bytes')
 def source_len_bytes(m, a, ci):
-    return _src(m, a[0]).text.byte_len()
+    src = _src(m, a[0])
+    if hasattr(src.text, 'byte_len'):
+        return src.text.byte_len()
+    return src.root.byte_len()
 
 
 def _linked(m, v):
